@@ -28,6 +28,8 @@ let of_lrow = function
 let () =
   register "print_opb" (function [h; names; f] ->
       of_chars (print_opb (to_header h) (to_opt to_names names) (to_formula f)) | _ -> raise (Bad "arity"));
+  register "print_opb_as_found" (function [h; names; f] ->
+      of_chars (print_opb_as_found (to_header h) (to_opt to_names names) (to_formula f)) | _ -> raise (Bad "arity"));
   register "parse_opb" (function [t] ->
       (match parse_opb (to_chars t) with
        | OOk (n, c) -> L [A "ok"; of_zbig n; of_list of_pbc_big c]
